@@ -25,6 +25,11 @@ try:
     gen_convert.generate()
 except Exception as e:
     sys.stderr.write("gen_convert: %s\n" % e)
+try:
+    import gen_lalr
+    gen_lalr.generate()
+except Exception as e:
+    sys.stderr.write("gen_lalr: %s\n" % e)
 def write_roots():
     """root modules importing every project module, so that a bare `lake build` checks everything"""
     lean = os.path.join(VERIF, "lean")
